@@ -544,3 +544,16 @@ func init() {
 		return it.newErr(IfaceV{}, "invalid denom")
 	}
 }
+
+func init() {
+	execThrough[paramsT+".NewParamSetPair"] = true
+}
+
+func init() {
+	models["time.Now"] = func(it *Interp, a []Val) Val {
+		v := Var(it.p.freshName("wallclock"), SInt)
+		it.p.sources = append(it.p.sources, Source{Kind: "time", Tag: "env:time.Now", Terms: []*Term{v}})
+		it.p.envReads = append(it.p.envReads, "time.Now")
+		return TimeV{v}
+	}
+}
